@@ -118,6 +118,7 @@ func loadWorld(repo string, overlay map[string][]byte, tags string) (*World, err
 		}
 	}
 	sort.Slice(w.allFuncs, func(i, j int) bool { return w.allFuncs[i].String() < w.allFuncs[j].String() })
+	theWorld = w
 	return w, nil
 }
 
@@ -477,6 +478,9 @@ func fname(fn *ssa.Function) string {
 }
 
 var renamedFns = map[*types.Func]string{}
+
+// theWorld is the world loaded last (for helpers that have no Ctx at hand).
+var theWorld *World
 
 // isTestHelperFile reports whether a position lies in a file that is compiled
 // into a production package but is a test helper by its own declaration.
